@@ -438,8 +438,9 @@ def duplicates(rep, c, sfx):
     gets = [b for b in c.bodies if b.get("impl_self") == "pest::pratt_parser::ConstPrattParser" and b["name"] == "get"
             and not b.get("impl_trait")]
     if not gets:
-        r.note("no ConstPrattParser::get in this configuration")
-        r.instance("const-get:absent", "")
+        # fail closed: without the function the agreement cannot be decided (this also keeps the helper-inlined view
+        # from passing vacuously when `get` was merged into its caller)
+        r.lost("ConstPrattParser::get")
         return
     g = gets[0]
     ms = [x["m"] for x in walk(g["body"]) if kind(x) == "MethodCall"]
